@@ -474,6 +474,7 @@ fn gen_model(rng: &mut Rng, cfg: &GenCfg) -> Model {
     }
     // --- assemble composite types
     let mut comp: Vec<TypeDef> = vec![];
+    let mut extras: Vec<(String, String, Arg)> = vec![];
     for h in hdrs.iter() {
         let mut fields: Vec<Field> = vec![];
         for r in roots.iter().filter(|r| r.owner == h.name || h.implements.contains(&r.owner)) {
@@ -483,7 +484,10 @@ fn gen_model(rng: &mut Rng, cfg: &GenCfg) -> Model {
             let ty = r.chain[h.depth - od].clone();
             let mut args = r.args.clone();
             if !own {
-                for a in args.iter_mut() { a.dirs = pick_apps(rng, "ARGUMENT_DEFINITION", &full_pool, &leaf_types, 2); if rng.chance(1, 2) { a.default = None; } }
+                // additional arguments introduced by implemented interfaces are inherited like any other argument
+                for a in args.iter_mut() { if rng.chance(1, 2) { a.default = None; } }
+                for (holder, rn, a) in extras.iter() { if rn == &r.name && h.implements.contains(holder) { args.push(a.clone()); } }
+                for a in args.iter_mut() { a.dirs = pick_apps(rng, "ARGUMENT_DEFINITION", &full_pool, &leaf_types, 2); }
                 if rng.chance(1, 4) {
                     // an additional argument must not be required
                     let base = rng.pick(&in_types).clone();
@@ -493,7 +497,9 @@ fn gen_model(rng: &mut Rng, cfg: &GenCfg) -> Model {
                         if rng.chance(1, 6) { default = Some(lit(rng, &leaf_types, &ty, 1)); features.push("extra_nonnull_arg_with_default".into()); }
                         else if let Ty::NonNull(inner) = ty { ty = *inner; }
                     }
-                    args.push(Arg { name: "x0".into(), ty, default, dirs: vec![], desc: None });
+                    let a = Arg { name: format!("x{}", hdrs.iter().position(|x| x.name == h.name).unwrap()), ty, default, dirs: vec![], desc: None };
+                    extras.push((h.name.clone(), r.name.clone(), a.clone()));
+                    args.push(a);
                 }
                 if rng.chance(1, 5) { rng.shuffle(&mut args); }
             }
@@ -856,11 +862,11 @@ fn mutate(rng: &mut Rng, m: &mut Model, kind: &str) -> Option<(String, String)> 
                     fs[j].ty = new; ok("iface_field_type", tag)
                 }
                 "iface_arg_missing" => {
-                    let inherited: Vec<usize> = (0..fs[j].args.len()).filter(|k| fs[j].args[*k].name != "x0").collect(); if inherited.is_empty() { return None; }
+                    let inherited: Vec<usize> = (0..fs[j].args.len()).filter(|k| !fs[j].args[*k].name.starts_with('x')).collect(); if inherited.is_empty() { return None; }
                     let k = *rng.pick(&inherited); fs[j].args.remove(k); ok("iface_arg_missing", tag)
                 }
                 "iface_arg_type" => {
-                    let inherited: Vec<usize> = (0..fs[j].args.len()).filter(|k| fs[j].args[*k].name != "x0").collect(); if inherited.is_empty() { return None; }
+                    let inherited: Vec<usize> = (0..fs[j].args.len()).filter(|k| !fs[j].args[*k].name.starts_with('x')).collect(); if inherited.is_empty() { return None; }
                     let k = *rng.pick(&inherited);
                     let old = fs[j].args[k].ty.clone();
                     fs[j].args[k].default = None;
